@@ -660,3 +660,25 @@ def numpy_pitfalls(check, rule: str, modules: set[str] | None = None) -> bool:
         raise AnalysisError(f"positive fixture for the numpy-pitfall rule matches {len(fx)} sites, expected 3")
     check.ok(rule, "fixture/numpy-pitfalls", "positive fixture matched 3 sites (and not the float-only / otypes / list-of-conditions variants)")
     return not hits
+
+
+def static_resolver(program):  # type: ignore[no-untyped-def]
+    """For sa.absexec: `Name.f(...)` where Name is a class of the package or a module-level alias of one (`Op = Operation`) and f is one of its
+    static functions -> the FunctionInfo to interpret."""
+    import ast as _ast
+
+    alias: dict[str, str] = {}
+    for m in program.modules.values():
+        for nm, v in m.assigns.items():
+            if isinstance(v, _ast.Name) and v.id in m.classes:
+                alias[nm] = v.id
+
+    def resolve(name: str, fname: str):  # type: ignore[no-untyped-def]
+        cname = alias.get(name, name)
+        c = program.classes.get(cname)
+        if c is None:
+            return None
+        f = c.lookup(fname)
+        return f if f is not None and "staticmethod" in f.decorators else None
+
+    return resolve
